@@ -266,10 +266,46 @@ class Check(Property):
         return canon({k: v for k, v in c.items() if k != "ops"})
 
     # ------------------------------------------------------------------ oracle
+    def constructor_probe(self):
+        """the system chosen when the registry is built (UnitRegistry(system=...)) is the default system: base units and
+        attribute-free conversions equal those of a registry whose default_system was set afterwards, and those asked for
+        with system=<name> explicitly"""
+        import pint
+        v = []
+        ref = regs.fresh("float")
+        for name in ("cgs", "imperial", "US", "SI", "mks", "atomic"):
+            try:
+                built = pint.UnitRegistry(system=name)
+                later = pint.UnitRegistry()
+                later.default_system = name
+            except Exception as exc:  # noqa: BLE001
+                v.append(f"C14 UnitRegistry(system={name!r}) raised {type(exc).__name__}: {exc}")
+                continue
+            if built.default_system != name:
+                v.append(f"C14 UnitRegistry(system={name!r}).default_system is {built.default_system!r}")
+            for un in ("inch", "newton", "pound", "mile / hour", "joule"):
+                def show(fb):
+                    f, b = fb
+                    return (float(f"{float(f):.10g}"), str(b))
+                a = show(built.get_base_units(un))
+                b_ = show(later.get_base_units(un))
+                c_ = show(ref.get_base_units(un, system=name))
+                d_ = show((lambda q: (q.magnitude, q.units))(built.Quantity(1.0, un).to_base_units()))
+                if not (a == b_ == c_ == d_):
+                    v.append(f"C14 base units of {un} under {name}: built with system= {a}, default_system set later {b_}, asked with "
+                             f"system={name!r} {c_}, to_base_units {d_}")
+                    break
+        return v[:6]
+
     def oracle(self, c):
         P = regs.pools()
         proj = P.proj
         v = []
+        if not getattr(self, "_ctor_done", False):
+            self._ctor_done = True
+            cv = self.constructor_probe()
+            if cv:
+                return cv
         u = regs.ureg("fraction")
         k = c["kind"]
         if k == "cycle":
